@@ -193,7 +193,7 @@ def generic_options_only(data):
     while i + 4 <= len(data):
         ot, ol = struct.unpack("!HH", data[i:i + 4])
         try:
-            if ot not in (3, 8, 10, 15, 18) and dns.edns.get_option_class(dns.edns.OptionType.make(ot)) is not dns.edns.GenericOption:
+            if ot not in (3, 8, 10, 15, 18, 22, 23, 24, 25) and dns.edns.get_option_class(dns.edns.OptionType.make(ot)) is not dns.edns.GenericOption:
                 return False
         except Exception:  # noqa
             return False
@@ -394,7 +394,7 @@ def gen_modelled_rdata(rng, rdtype, base_len):
     if rdtype == 41:
         out = b""
         for _ in range(rng.choice([0, 1, 2, 3])):
-            ot = rng.choice([65001, 4, 100, 3, 8, 8, 8, 10, 10, 15, 15, 18])
+            ot = rng.choice([65001, 4, 100, 3, 8, 8, 8, 10, 10, 15, 15, 18, 22, 23, 24, 25])
             if ot == 8:
                 fam = rng.choice([1, 1, 2, 2, 0, 3])
                 src = rng.choice([0, 1, 8, 24, 25, 32, 33, 40, 56, 128, 129, 255])
@@ -409,6 +409,9 @@ def gen_modelled_rdata(rng, rdtype, base_len):
                 v = struct.pack("!H", rng.choice([0, 3, 24, 65535])) + txt if rng.random() < 0.9 else bytes(rng.choice([0, 1]))
             elif ot == 18:
                 v = gen_wire_name(rng, base_len) if rng.random() < 0.8 else b"\x03abc"
+            elif ot in (22, 23, 24, 25):
+                v = rng.choice([b"", b"en", b"mailto:abuse@example.com", "caf\u00e9".encode(), b"\xc3", b"\xed\xa0\x80", b"ok\xff", b"x\x00",
+                                b"\xf0\x9f\x98\x80", b"\xf4\x90\x80\x80"])
             else:
                 v = bytes(rng.randrange(256) for _ in range(rng.choice([0, 1, 4, 9])))
             out += struct.pack("!HH", ot, len(v) if rng.random() < 0.93 else rng.choice([0, len(v) + 1, max(0, len(v) - 1)])) + v
